@@ -36,7 +36,8 @@
 From Coq Require Import String List Arith NArith.
 From WacV Require Import Str StrLit Token Lexer Semver Names Ast Graph Resolver LangSpec
   GraphInv GraphTheorems ResolverProofs ResolverNew ResolverStmts ResolverInv ResolverWitness
-  ResolverSim ResolverSimExpr ResolverSimNew ResolverSimStmt ResolverSimObs.
+  ResolverSim ResolverSimExpr ResolverSimNew ResolverSimStmt ResolverSimObs ResolverWitness2.
+From WacV Require Wiring WiringSpec EncodeModel WiringDecode ValidEncInv ResolverEndToEnd.
 Import ListNotations.
 Local Open Scope nat_scope.
 
@@ -348,6 +349,25 @@ Proof.
   split; [exact (obs_alias u K st env vm R)|]. split; [exact (r_insts _ _ _ _ _ R)|exact (obs_args u K U st env vm R)].
 Qed.
 
+(** * 7. End to end with C01/C02.  For a document the resolver model accepts: the document denotes a
+    composition, the resulting graph denotes it ([Rel]), and for every topological emission order and
+    every behaviour of the type encoder, whenever the model of the structural encoder
+    ([EncodeModel.encode_with_order], tied to the code by C02) succeeds, its log decodes to exactly the
+    wiring of that graph ([WiringSpec.wiring_spec]: every instantiation once with its package's
+    component, every argument bound to the designated item, every export bound to the designated
+    item).  Side conditions as in C02 [wiring_correct]; its [EncInv] is discharged by C01
+    [enc_inv_reachable] because the resolver's graphs are reachable and contain no type definition. *)
+Theorem resolved_document_encodes_its_wiring (u : runiverse) K d e st dc tau ord stE names :
+  uok u K -> pd_targets (doc_directive d) = None -> resolve u d = inl st ->
+  ValidEncInv.UnivOK e u -> WiringSpec.topo_orderb (rs_g st) ord = true ->
+  EncodeModel.encode_with_order e u (rs_g st) dc tau ord = EncodeModel.ROk (stE, names) ->
+  (forall p, In p (EncodeModel.e_dedup stE) -> fst p = snd p) ->
+  exists env vm,
+    denote impl_flags_c04 u d = inl env /\ Rel u K st env vm /\
+    option_map (Wiring.erase_defs (WiringSpec.def_names e (rs_g st))) (Wiring.decode_wiring names (EncodeModel.e_log stE))
+      = Some (WiringSpec.wiring_spec e u (rs_g st) dc ord).
+Proof. exact (ResolverEndToEnd.resolved_document_wiring u K d e st dc tau ord stE names). Qed.
+
 (** * The reference as written is contradicted by the faithful model (findings) *)
 
 (** 3-refuted. [p.f] where [p] exports both [f] and [x:y/f]: the reference as written selects the
@@ -379,6 +399,17 @@ Example four_argument_forms :
   model_args w_universe w_args = Some [(3, [(1%N, 2); (0%N, 0)]); (4, [(1%N, 0)])].
 Proof. exact w_args_model. Qed.
 
+(** Non-vacuity of the simulation theorem: its hypotheses hold of a concrete universe (an injective name
+    table: strings as positives), and it applies to the program with the four argument forms. *)
+Example simulation_hypotheses_satisfiable : uok v_universe v_K.
+Proof. exact v_uok. Qed.
+
+Example simulation_instance :
+  exists d, parse w_args = Some d /\
+    exists st env vm, resolve v_universe d = inl st /\ denote impl_flags_c04 v_universe d = inl env /\
+                      Rel v_universe v_K st env vm.
+Proof. destruct v_parses as [d P]. exists d. split; [exact P|exact (v_instance d P)]. Qed.
+
 Print Assumptions arg_name_spec.
 Print Assumptions arg_binding_spec.
 Print Assumptions resolved_graph_invariant.
@@ -394,5 +425,6 @@ Print Assumptions illformed_rejected_at_construct.
 Print Assumptions document_simulation.
 Print Assumptions illformed_rejected.
 Print Assumptions composition_observed.
+Print Assumptions resolved_document_encodes_its_wiring.
 Print Assumptions access_spec_doc_refuted.
 Print Assumptions export_spread_doc_refuted.
